@@ -59,6 +59,38 @@ func (c *Ctx) info(fi *core.FuncInfo) *types.Info { return fi.Pkg.TypesInfo }
 // root returns a function of the root package by name, or nil.
 func (c *Ctx) root(name string) *core.FuncInfo { return c.P.Func("", name) }
 
+var reachCaches = map[*core.Program]map[string]map[*core.FuncInfo]bool{}
+
+// below reports whether fi lies in the call graph below the module's root function of that name (the root itself
+// included). Properties are attributed to functions by this role, never by the file a function happens to live in.
+func (c *Ctx) below(fi *core.FuncInfo, rootName string) bool {
+	cacheMu.Lock()
+	defer cacheMu.Unlock()
+	rc := reachCaches[c.P]
+	if rc == nil {
+		rc = map[string]map[*core.FuncInfo]bool{}
+		reachCaches[c.P] = rc
+	}
+	set, ok := rc[rootName]
+	if !ok {
+		set = map[*core.FuncInfo]bool{}
+		if rf := c.root(rootName); rf != nil {
+			set = c.P.Reachable(rf)
+		}
+		rc[rootName] = set
+	}
+	return set[fi]
+}
+
+// onSpec: fi is a method of the analyzer (*Spec), or one of the unexported helpers only the analyzer's methods
+// and constructor use (everything below New).
+func (c *Ctx) onSpec(fi *core.FuncInfo) bool {
+	if sig, ok := fi.Obj.Type().(*types.Signature); ok && sig.Recv() != nil && core.IsModType(sig.Recv().Type(), "Spec") {
+		return true
+	}
+	return c.below(fi, "New")
+}
+
 // complexFn: the predicate "this analysed schema is complex", found by role rather than by name: the method of
 // AnalyzedSchema without parameters, returning bool, that is called below Flatten and whose body reads the three
 // exported flags IsSimpleSchema, IsArray and IsMap.
